@@ -14,6 +14,9 @@ R-SAUCESTR-LEN : the fixed-width field type keeps its contents within the field:
                  such a mutator is made on an empty string - decided per instantiation (20, 22, 35, 64) with the interval
                  analysis specialised to the const parameters.  Otherwise append_to writes more than LEN bytes and the
                  record is no longer 128 bytes long.
+R-SAUCE-WIDTH  : `Buffer::set_sauce` may replace the record's width by a default only for the widths the property itself lets
+                 it treat so (0 and more than 1000): on every control-flow edge into a block that stores a constant into the
+                 `width` of the size taken from the record, the interval analysis must exclude every width in 1..=1000.
 R-SAUCE-EXACT  : every shift / add / mul on header bytes in `SauceData::extract` whose result type is narrower than 64 bits is
                  value preserving (no wrap), decided with the interval analysis."""
 import re
@@ -88,7 +91,7 @@ def run(chk):
     _FACTS = f
     g = CallGraph(f)
     ip = Interproc(f, g)
-    chk.rules = ["R-SAUCE-AFFINE", "R-SAUCE-CUT", "R-SAUCE-EXACT", "R-SAUCESTR-LEN"]
+    chk.rules = ["R-SAUCE-AFFINE", "R-SAUCE-CUT", "R-SAUCE-EXACT", "R-SAUCESTR-LEN", "R-SAUCE-WIDTH"]
     chk.assumptions = ["SauceString<N, _>::append_to appends exactly N bytes provided its contents are at most N bytes (that proviso is rule R-SAUCESTR-LEN)",
                        "lengths < 2^31; 64-bit offset arithmetic does not wrap"]
     wb, rb, lb = f.bodies.get(WRITER), f.bodies.get(READER), f.bodies.get(LOADER)
@@ -470,6 +473,7 @@ def run(chk):
                 break
     chk.floor("R-SAUCE-EXACT", "narrow arithmetic operations in extract", nar, 4)
     nss = saucestr_len(chk, f, ip)
+    sauce_width(chk, f, ip)
     return chk.finish("Writer: %d append sites, path sums %s, %s bytes per comment line; reader: header length %s; content length definitions and "
                       "%d narrow arithmetic operations of the header decoder checked; %d SauceString construction / mutation obligations (content <= field width)." % (nappend, sorted(final_norm), per_iter, sorted(got)[:2], nar, nss))
 
@@ -621,3 +625,43 @@ def saucestr_len(chk, f, ip):
                     chk.finding("%s|saucestr-call|%s" % (cb.short(), b.short().split("::")[-1]), rule="R-SAUCESTR-LEN", where="%s:%s" % (cb.file, t.get("line")), fn=cb.short(),
                                 what="%s is called on a SauceString that is not proven empty: it appends up to LEN bytes to what is there" % b.short())
     return nob
+
+
+# ===================================================================================================== R-SAUCE-WIDTH
+SETTER = "buffers::Buffer::set_sauce"
+LEGAL_WIDTH = (1, 1000)       # the property's own quantifier: widths 1..=1000 round-trip, 0 and larger values become 80
+
+
+def sauce_width(chk, f, ip):
+    b = f.bodies.get(SETTER)
+    if not chk.anchor(b is not None, "R-SAUCE-WIDTH", "anchor missing: Buffer::set_sauce"):
+        return
+    an = Analyzer(f, interproc=ip)
+    res = an.analyze(b, collect=False)
+    n = 0
+    for bi, k, s in b.stmts():
+        if s["k"] != "assign" or s["rv"]["k"] != "use" or "const" not in s["rv"]["a"]:
+            continue
+        proj = s["p"].get("p") or []
+        if not proj or proj[-1] == "*" or proj[-1][0] != "f" or proj[-1][2] != "width":
+            continue
+        n += 1
+        edges = [(p, bi) for p in b.pred[bi] if (p, bi) in res.edge_states]
+        for e in edges:
+            st = res.edge_states[e]
+            if st is None or st.bottom:
+                continue
+            c = an.canon(st, s["p"])
+            ok = False
+            rng = None
+            if c is not None:
+                sv = st.sym.get((c[0], c[1]))
+                val = sv if (sv is not None and sv[0] in ("n", "iv")) else ("n", ("v", c[0], c[1]), 0)
+                rng = st.val_iv(val)
+                ok = (rng[1] is not None and rng[1] < LEGAL_WIDTH[0]) or (rng[0] is not None and rng[0] > LEGAL_WIDTH[1])
+            chk.obligation(ok)
+            if not ok:
+                chk.finding("set_sauce|width-default|edge", rule="R-SAUCE-WIDTH", where="%s:%s" % (b.file, s.get("line")), fn="Buffer::set_sauce",
+                            what="the record's width is replaced by the constant %s on a path where it may lie in %d..=%d (interval on that path: %s): such a width does not survive loading" % (
+                                s["rv"]["a"]["const"].get("val"), LEGAL_WIDTH[0], LEGAL_WIDTH[1], rng))
+    chk.floor("R-SAUCE-WIDTH", "constant stores into the record size's width", n, 1)
